@@ -350,12 +350,15 @@ func (rr *AFSDB) parse(c *zlexer, o string) *ParseError {
 }
 
 func (rr *X25) parse(c *zlexer, o string) *ParseError {
-	l, _ := c.Next()
-	if l.err {
-		return &ParseError{err: "bad X25 PSDNAddress", lex: l}
+	s, e := endingToTxtSlice(c, "bad X25 PSDNAddress")
+	if e != nil {
+		return e
 	}
-	rr.PSDNAddress = l.token
-	return slurpRemainder(c)
+	if ln := len(s); ln == 0 {
+		return nil
+	}
+	rr.PSDNAddress = s[0] // silently discard anything after the first character-string
+	return nil
 }
 
 func (rr *KX) parse(c *zlexer, o string) *ParseError {
